@@ -222,26 +222,20 @@ func rulesC15(c *Ctx) {
 				continue
 			}
 			guards := ag.GuardsAt(ag.VertexOf(r))
-			ok4 := hasAtom(guards, func(a Atom) bool {
+			// 400 <= code and code < 500 on the status code of the HTTP error, both known to hold here (constants are on the
+			// right after normalisation; the two tests may be conjuncts of one condition or conditions of nested ifs)
+			bounds := map[token.Token]int64{}
+			for _, a := range guards {
 				if !a.Val {
-					return false
+					continue
 				}
-				// 400 <= code && code < 500 on the status code of the HTTP error
-				b, isB := a.E.(*ast.BinaryExpr)
-				if !isB || b.Op != token.LAND {
-					return false
-				}
-				// (constants are on the right after normalisation; the conjuncts may come in either order)
-				bounds := map[token.Token]int64{}
-				for _, conj := range []ast.Expr{b.X, b.Y} {
-					if x, y, op, ok := binaryCmp(conj); ok && strings.HasSuffix(asmF.FieldPath(x), ".StatusCode") {
-						if v, isC := asmF.ConstInt(y); isC {
-							bounds[op] = v
-						}
+				if x, y, op, ok := binaryCmp(a.E); ok && strings.HasSuffix(asmF.FieldPath(x), ".StatusCode") {
+					if v, isC := asmF.ConstInt(y); isC {
+						bounds[op] = v
 					}
 				}
-				return len(bounds) == 2 && bounds[token.GEQ] == 400 && bounds[token.LSS] == 500
-			})
+			}
+			ok4 := len(bounds) == 2 && bounds[token.GEQ] == 400 && bounds[token.LSS] == 500
 			c.Check(ok4, "ASM:no-metadata-only-for-4xx#"+itoa(i), asmF, r, "'no metadata' (nil, nil) is reported only for a 4xx answer (guards: %s)", atomsString(guards))
 		}
 		// auth.GetAuthServerMetadata propagates errors
